@@ -283,7 +283,7 @@ PROPS = {
         ],
     },
     'C16': {
-        'v_units': ['variable', 'varset', 'simplecmd', 'funcall', 'unsetbi', 'builtincall'],
+        'v_units': ['variable', 'varset', 'simplecmd', 'funcall', 'unsetbi', 'builtincall', 'absenttarget'],
         'k_units': [],
         'level': 'proof',
         'explanation': (
@@ -312,7 +312,8 @@ PROPS = {
             'caller\'s ("assignments before a function or utility do not outlive it"). NOT decided: completeness of env_c_strings, ContextGuard, positional parameters, extend_env / init, and '
             'everything the interpreter does with these operations (which scope a built-in, function or assignment uses).'
             ' Unit unsetbi (Verus, yash-builtin/src/unset/semantics.rs unset_variables, unset_functions): the unset built-in asks the variable store to unset EVERY operand, each exactly once, in order, in the GLOBAL scope (every definition of the name goes away; what VariableSet::unset does with that request, including its refusal for read-only variables, is under contract in unit varset), never touches the functions in variable mode and vice versa, and hands back exactly one error per refused name.'
-            " Unit builtincall (Verus, yash-semantics/src/command/simple_command/builtin.rs execute_builtin): the redirections of the command are performed first, once, under a RedirGuard; a failed one is reported once and nothing else happens - it interrupts the shell iff the built-in is a SPECIAL one, any other lets the shell go on; the assignments are then made once, with the redirections in effect: for a SPECIAL built-in in the caller's own contexts and not exported (they stay), for any other exported in a VOLATILE context pushed on top, which is gone afterwards; the built-in runs at most once, only after both succeeded and it turned out usable, in a Builtin frame saying whether it is special, with the redirections in effect, the contexts of the assignments and the fields after the command name; `$?` is the exit status of its result, the divert of its result is handed on, and the redirections stay in effect afterwards exactly when the result asks for that (exec); an unusable built-in is reported once, nothing runs, and the contexts, frames and redirections are the caller's again."),
+            " Unit builtincall (Verus, yash-semantics/src/command/simple_command/builtin.rs execute_builtin): the redirections of the command are performed first, once, under a RedirGuard; a failed one is reported once and nothing else happens - it interrupts the shell iff the built-in is a SPECIAL one, any other lets the shell go on; the assignments are then made once, with the redirections in effect: for a SPECIAL built-in in the caller's own contexts and not exported (they stay), for any other exported in a VOLATILE context pushed on top, which is gone afterwards; the built-in runs at most once, only after both succeeded and it turned out usable, in a Builtin frame saying whether it is special, with the redirections in effect, the contexts of the assignments and the fields after the command name; `$?` is the exit status of its result, the divert of its result is handed on, and the redirections stay in effect afterwards exactly when the result asks for that (exec); an unusable built-in is reported once, nothing runs, and the contexts, frames and redirections are the caller's again."
+            " Unit absenttarget (Verus, yash-semantics/src/command/simple_command/absent.rs execute_absent_target - a simple command without a command name): its redirections are never performed in this shell - without redirections no child is started, otherwise exactly one child is started for exactly these redirections and awaited, and its result is interpreted once; in the child (the closure, checked as a nested function with the same body) they are performed once, all, under a guard, a failed one is reported once and the handler's outcome applied, otherwise the child's status is that of the last command substitution in them or the status the command started with; a child that cannot be started interrupts with status 2 and no assignment is made; otherwise the assignments are made in THIS shell, once, all of them, NOT exported, in the caller's own contexts (they stay), a failed one hands its divert on, and `$?` is the status of the last command substitution in the assignments, else what the child reported, else (no redirections) the status handed in."),
         'trusted_base': ['Verus 0.2026.09.13 + Z3', '/verif/tools/vextract.py'],
         'assumptions': [
             'source::Location is an opaque placeholder type',
@@ -326,6 +327,7 @@ PROPS = {
             'units simplecmd / funcall: the assignment performer, the function body, the utility starter, perform_redirs and the error handlers are opaque calls observed by ghost monitors; RAII of the context guard (Env::push_context) and of the redirection guard is assumed (external_body contracts); PositionalParams::from_fields is assumed to keep the fields in order; await points dropped',
             'unit unsetbi: VariableSet::unset / FunctionSet::unset are opaque calls that log the request in ghost state (FunctionSet::unset fails only for a read-only function, whose read_only_location is Some: the unwrap is an obligation); `for name in names` over a slice is a while loop over the index; `let mut errors = Vec::new()` gets a type annotation (the invariant names it before inference); main of unset.rs (parse, dispatch, report) not under contract',
             'unit builtincall: RAII of RedirGuard, the context guard and the frame guard assumed in the contracts of their constructors; perform_assignments, resolve_builtin, the error handler, print_error and the built-in itself are opaque calls recording what was in place; Either::Left(&mut *env) / Either::Right(env.push_context(..)) are checked as two constructors of one guard type and the match that dereferences them as taking the reference the guard holds; the INTERRUPTIBLE run of a built-in (select between the built-in and SIGINT, signals caught meanwhile) is one opaque helper and NOT under contract; the labeled block with a value is checked in its else-nesting form (rule labeled-block-value-to-else); `r#type` renamed; precondition: at least the command name among the fields; await points dropped',
+            "unit absenttarget: the async closure handed to Config::foreground().start_and_wait(..) is checked as a nested function (rule closure-to-nested-fn: parameters = the closure's parameters plus the captured variables redirs_2 and exit_status; its `return` is the closure's) and the start is an opaque call recording what the child was given; RAII of RedirGuard assumed; perform_redirs / perform_assignments / the error handler / apply_result / handle_job_status / print_error opaque, recording what was in place and the status of the last command substitution they saw; slice::first, the iterator over the redirections and the location of the first redirection through helpers; await points dropped",
         ],
     },
     'C20': {
@@ -347,7 +349,7 @@ PROPS = {
         'assumptions': ['Mode::with_extensions only', 'two fixed option tables'],
     },
     'C02': {
-        'v_units': ['cmdsearch', 'looplevel', 'returnbi', 'whileloop', 'forloop', 'casecmd', 'condframe', 'simplecmd', 'funcall', 'subshellcmd', 'pipelinerun', 'asynclist', 'cmdlist', 'builtincall'],
+        'v_units': ['cmdsearch', 'looplevel', 'returnbi', 'whileloop', 'forloop', 'casecmd', 'condframe', 'simplecmd', 'funcall', 'subshellcmd', 'pipelinerun', 'asynclist', 'cmdlist', 'builtincall', 'absenttarget'],
         'k_units': ['loopcount'],
         'level': 'other',
         'explanation': (
@@ -410,7 +412,8 @@ PROPS = {
             ' Unit pipelinerun (Verus, pipeline.rs execute_commands_in_pipeline, execute_job_controlled_pipeline, execute_multi_command_pipeline, shift_or_fail, pid_or_fail, connect_pipe_and_execute_command) against a monitor of the opaque pipe-set / start / wait calls: an empty pipeline has status 0; a one-command pipeline is exactly that command run in this shell, its result handed on, no second errexit; for two or more commands no command runs in this shell: without job control one child is started per command, in order, each right after the pipe set was shifted for it and with the pipe set as just shifted (a next pipe iff it is not the last command), the parent shifts once more (closing its last pipe end) BEFORE it waits, every child started is awaited exactly once, in order (the process IDs are pairwise distinct and each is still unreaped when awaited, so the `expect` cannot fail), none is left unreaped, and `$?` is the status of the last command or, under pipefail, of the rightmost one that failed (0 if none); with job control exactly one child is started for exactly these commands, its awaited result is interpreted once and `$?` is the status it stands for; in both cases errexit is consulted exactly once, at the very end, with that status, and its answer is the result; a failing pipe / start gives an interrupt with status 126 (NOEXEC). In a child, connect_pipe_and_execute_command connects the pipes first and runs the command once, only if that worked.'
             " Unit asynclist (Verus, yash-semantics/src/command/item.rs Item::execute, execute_async, async_body, nullify_stdin): a synchronous item is exactly its and-or list, run in this shell, once; for `cmd &` exactly one child is started for exactly this and-or list, with background job control asked for and SIGINT / SIGQUIT ignored in it, the list does not run in this shell and the child is not awaited; if it was started, one job with its process ID enters the job table (owned, running, not yet reported; job-controlled iff job control was granted), `$!` becomes that process ID and `$?` is 0; if not, no job, `$!` untouched, an interrupt with status 126. In the child the list runs exactly once, its result is applied and the EXIT trap runs once, in this order; under job control standard input is left alone; nullify_stdin makes standard input /dev/null and changes nothing else (its assert_eq! is discharged from POSIX's lowest-free-descriptor rule)."
             " Unit cmdlist (Verus, yash-semantics/src/command.rs): Command::execute runs exactly the one command it is (simple, compound or function definition), once, then exactly one trap round (run_traps_for_caught_signals), then refreshes the job statuses - nothing else - and answers the command's result unless only the traps diverted, the more severe divert if both did; List::execute runs its items in order, each exactly once, up to and including the first that diverts, hands that divert on unchanged and runs nothing after it (every item when none diverts)."
-            " Unit builtincall (Verus, yash-semantics/src/command/simple_command/builtin.rs execute_builtin): the redirections of the command are performed first, once, under a RedirGuard; a failed one is reported once and nothing else happens - it interrupts the shell iff the built-in is a SPECIAL one, any other lets the shell go on; the assignments are then made once, with the redirections in effect: for a SPECIAL built-in in the caller's own contexts and not exported (they stay), for any other exported in a VOLATILE context pushed on top, which is gone afterwards; the built-in runs at most once, only after both succeeded and it turned out usable, in a Builtin frame saying whether it is special, with the redirections in effect, the contexts of the assignments and the fields after the command name; `$?` is the exit status of its result, the divert of its result is handed on, and the redirections stay in effect afterwards exactly when the result asks for that (exec); an unusable built-in is reported once, nothing runs, and the contexts, frames and redirections are the caller's again."),
+            " Unit builtincall (Verus, yash-semantics/src/command/simple_command/builtin.rs execute_builtin): the redirections of the command are performed first, once, under a RedirGuard; a failed one is reported once and nothing else happens - it interrupts the shell iff the built-in is a SPECIAL one, any other lets the shell go on; the assignments are then made once, with the redirections in effect: for a SPECIAL built-in in the caller's own contexts and not exported (they stay), for any other exported in a VOLATILE context pushed on top, which is gone afterwards; the built-in runs at most once, only after both succeeded and it turned out usable, in a Builtin frame saying whether it is special, with the redirections in effect, the contexts of the assignments and the fields after the command name; `$?` is the exit status of its result, the divert of its result is handed on, and the redirections stay in effect afterwards exactly when the result asks for that (exec); an unusable built-in is reported once, nothing runs, and the contexts, frames and redirections are the caller's again."
+            " Unit absenttarget (Verus, yash-semantics/src/command/simple_command/absent.rs execute_absent_target - a simple command without a command name): its redirections are never performed in this shell - without redirections no child is started, otherwise exactly one child is started for exactly these redirections and awaited, and its result is interpreted once; in the child (the closure, checked as a nested function with the same body) they are performed once, all, under a guard, a failed one is reported once and the handler's outcome applied, otherwise the child's status is that of the last command substitution in them or the status the command started with; a child that cannot be started interrupts with status 2 and no assignment is made; otherwise the assignments are made in THIS shell, once, all of them, NOT exported, in the caller's own contexts (they stay), a failed one hands its divert on, and `$?` is the status of the last command substitution in the assignments, else what the child reported, else (no redirections) the status handed in."),
         'trusted_base': ['Verus 0.2026.09.13 + Z3', 'Kani 0.68.0 + CBMC 6.11', '/verif/tools/vextract.py, /verif/tools/kunit.py'],
         'assumptions': [
             'unit cmdsearch: the methods of ClassifyEnv / PathEnv answer according to ghost views builtin_of / function_of / path_hit (implementor obligation, not verified); search_path is external_body (returns path_hit, leaves the environment alone); str::contains(char), CString::default / new are opaque helpers; Builtin / Function reduced to what the search reads; the raw identifier r#type is renamed (Verus aborts on it); derived PartialEq of Type is structural',
@@ -426,6 +429,7 @@ PROPS = {
             'unit asynclist: Config::new is the derived Default (assumed: no job control, nothing ignored); config.start(..) with its async closure is an opaque call recording the configuration and the and-or list (unit subshellstart has the real start); JobList::insert / set_last_async_pid, AndOrList::execute / to_string, apply_result, run_exit_trap, print_error, is_interactive opaque; the descriptor table is a model trait (close; open answers the lowest free descriptor); the C-string literal is a helper call (Verus has none); that standard input IS /dev/null without job control is proved for nullify_stdin but only stated for the job-control case in async_body (a failing nullify is ignored by the code); await points dropped',
             'unit cmdlist: executing a simple command / compound command / function definition / item, run_traps_for_caught_signals and update_all_subshell_statuses are opaque calls appending to an event log; Ord::max on Divert is a helper over an uninterpreted order; `Box::pin(async move { .. }).await` is checked as the block itself; `for item in &self.0` is a while loop over the index; await points dropped',
             'unit builtincall: RAII of RedirGuard, the context guard and the frame guard assumed in the contracts of their constructors; perform_assignments, resolve_builtin, the error handler, print_error and the built-in itself are opaque calls recording what was in place; Either::Left(&mut *env) / Either::Right(env.push_context(..)) are checked as two constructors of one guard type and the match that dereferences them as taking the reference the guard holds; the INTERRUPTIBLE run of a built-in (select between the built-in and SIGINT, signals caught meanwhile) is one opaque helper and NOT under contract; the labeled block with a value is checked in its else-nesting form (rule labeled-block-value-to-else); `r#type` renamed; precondition: at least the command name among the fields; await points dropped',
+            "unit absenttarget: the async closure handed to Config::foreground().start_and_wait(..) is checked as a nested function (rule closure-to-nested-fn: parameters = the closure's parameters plus the captured variables redirs_2 and exit_status; its `return` is the closure's) and the start is an opaque call recording what the child was given; RAII of RedirGuard assumed; perform_redirs / perform_assignments / the error handler / apply_result / handle_job_status / print_error opaque, recording what was in place and the status of the last command substitution they saw; slice::first, the iterator over the redirections and the location of the first redirection through helpers; await points dropped",
         ],
     },
     'C05': {
@@ -450,7 +454,7 @@ PROPS = {
         ],
     },
     'C09': {
-        'v_units': ['redir', 'funcall', 'fullcompound', 'builtincall'],
+        'v_units': ['redir', 'funcall', 'fullcompound', 'builtincall', 'absenttarget'],
         'k_units': [],
         'level': 'other',
         'explanation': (
@@ -480,7 +484,8 @@ PROPS = {
             'NOT decided: expansion of the operand and the writing of the '
             'here-document body (assumed not to touch the table), the other callers of the guard (built-ins, the absent target: '
             'async interpreter code), move_fd_internal, and the simulated system itself.'
-            " Unit builtincall (Verus, yash-semantics/src/command/simple_command/builtin.rs execute_builtin): the redirections of the command are performed first, once, under a RedirGuard; a failed one is reported once and nothing else happens - it interrupts the shell iff the built-in is a SPECIAL one, any other lets the shell go on; the assignments are then made once, with the redirections in effect: for a SPECIAL built-in in the caller's own contexts and not exported (they stay), for any other exported in a VOLATILE context pushed on top, which is gone afterwards; the built-in runs at most once, only after both succeeded and it turned out usable, in a Builtin frame saying whether it is special, with the redirections in effect, the contexts of the assignments and the fields after the command name; `$?` is the exit status of its result, the divert of its result is handed on, and the redirections stay in effect afterwards exactly when the result asks for that (exec); an unusable built-in is reported once, nothing runs, and the contexts, frames and redirections are the caller's again."),
+            " Unit builtincall (Verus, yash-semantics/src/command/simple_command/builtin.rs execute_builtin): the redirections of the command are performed first, once, under a RedirGuard; a failed one is reported once and nothing else happens - it interrupts the shell iff the built-in is a SPECIAL one, any other lets the shell go on; the assignments are then made once, with the redirections in effect: for a SPECIAL built-in in the caller's own contexts and not exported (they stay), for any other exported in a VOLATILE context pushed on top, which is gone afterwards; the built-in runs at most once, only after both succeeded and it turned out usable, in a Builtin frame saying whether it is special, with the redirections in effect, the contexts of the assignments and the fields after the command name; `$?` is the exit status of its result, the divert of its result is handed on, and the redirections stay in effect afterwards exactly when the result asks for that (exec); an unusable built-in is reported once, nothing runs, and the contexts, frames and redirections are the caller's again."
+            " Unit absenttarget (Verus, yash-semantics/src/command/simple_command/absent.rs execute_absent_target - a simple command without a command name): its redirections are never performed in this shell - without redirections no child is started, otherwise exactly one child is started for exactly these redirections and awaited, and its result is interpreted once; in the child (the closure, checked as a nested function with the same body) they are performed once, all, under a guard, a failed one is reported once and the handler's outcome applied, otherwise the child's status is that of the last command substitution in them or the status the command started with; a child that cannot be started interrupts with status 2 and no assignment is made; otherwise the assignments are made in THIS shell, once, all of them, NOT exported, in the caller's own contexts (they stay), a failed one hands its divert on, and `$?` is the status of the last command substitution in the assignments, else what the child reported, else (no redirections) the status handed in."),
         'trusted_base': ['Verus 0.2026.09.13 + Z3', '/verif/tools/vextract.py'],
         'assumptions': [
             'the system traits Close / Dup / Fcntl are replaced by one synchronous model trait over a ghost descriptor table (fd -> open file description, close-on-exec); dup returns a descriptor that was not open, >= its minimum, EBADF exactly for a closed source; dup2 clears close-on-exec; close of a closed descriptor succeeds (as the trait documents); failures of close/dup2 on valid descriptors are a function of the state and excluded by hypothesis in the restoration clauses',
@@ -491,6 +496,7 @@ PROPS = {
             'Env reduced to the system field; RedirGuard passes itself where &mut Env is expected (DerefMut): checked as `self.env`; `for x in v.drain(..).rev()` is checked as `while let Some(x) = v.pop()`, `for x in v.drain(..)` through a helper with an assumed contract; the generic `I: IntoIterator<Item = &Redir>` parameter of perform_redirs is checked at `&[Redir]` (rule sig-tokens); Option::or and Option::as_deref_mut (helper) have assumed contracts; Drop::drop is checked as an inherent method with the same body',
             'Location, Word, Text, HereDoc, Field, XTrace, expansion errors, CString, NulError, ParseIntError are opaque placeholders; EnumSet<T> is a ghost set of flags with assumed contracts for empty / | / into / contains; Mode, the option set (one option) and file status (one bit) are reduced models; Errno::EBADF = 9, EEXIST = 17, ENOENT = 2',
             'unit builtincall: RAII of RedirGuard, the context guard and the frame guard assumed in the contracts of their constructors; perform_assignments, resolve_builtin, the error handler, print_error and the built-in itself are opaque calls recording what was in place; Either::Left(&mut *env) / Either::Right(env.push_context(..)) are checked as two constructors of one guard type and the match that dereferences them as taking the reference the guard holds; the INTERRUPTIBLE run of a built-in (select between the built-in and SIGINT, signals caught meanwhile) is one opaque helper and NOT under contract; the labeled block with a value is checked in its else-nesting form (rule labeled-block-value-to-else); `r#type` renamed; precondition: at least the command name among the fields; await points dropped',
+            "unit absenttarget: the async closure handed to Config::foreground().start_and_wait(..) is checked as a nested function (rule closure-to-nested-fn: parameters = the closure's parameters plus the captured variables redirs_2 and exit_status; its `return` is the closure's) and the start is an opaque call recording what the child was given; RAII of RedirGuard assumed; perform_redirs / perform_assignments / the error handler / apply_result / handle_job_status / print_error opaque, recording what was in place and the status of the last command substitution they saw; slice::first, the iterator over the redirections and the location of the first redirection through helpers; await points dropped",
         ],
     },
     'C13': {
@@ -594,7 +600,7 @@ PROPS = {
         ],
     },
     'C10': {
-        'v_units': ['errexit', 'condframe', 'assignstatus', 'simplecmd', 'errhandle', 'fullcompound', 'replloop', 'subshellcmd', 'pipelinerun', 'builtincall'],
+        'v_units': ['errexit', 'condframe', 'assignstatus', 'simplecmd', 'errhandle', 'fullcompound', 'replloop', 'subshellcmd', 'pipelinerun', 'builtincall', 'absenttarget'],
         'k_units': ['errexit'],
         'level': 'other',
         'explanation': (
@@ -630,7 +636,8 @@ PROPS = {
             'expansion errors): all of that is async interpreter code outside both tools.'
             ' Unit subshellcmd (Verus, compound_command/subshell.rs execute + subshell_main): for `( ... )` exactly one child is started and what runs in it is subshell_main on exactly this body; the awaited result of exactly that child is interpreted once (handle_job_status), `$?` becomes the status it stands for, and errexit is consulted exactly once, afterwards, with that status (a failing subshell ends the shell under errexit) - unless interpreting the result diverts (stopped child / SIGINT in an interactive shell), which is handed on without errexit; a child that cannot be started gives an interrupt with the error status and leaves `$?` alone. Inside the child the body runs once, its result is applied (apply_result), and the EXIT trap runs exactly once, after both.'
             ' Unit pipelinerun (Verus, pipeline.rs execute_commands_in_pipeline, execute_job_controlled_pipeline, execute_multi_command_pipeline, shift_or_fail, pid_or_fail, connect_pipe_and_execute_command) against a monitor of the opaque pipe-set / start / wait calls: an empty pipeline has status 0; a one-command pipeline is exactly that command run in this shell, its result handed on, no second errexit; for two or more commands no command runs in this shell: without job control one child is started per command, in order, each right after the pipe set was shifted for it and with the pipe set as just shifted (a next pipe iff it is not the last command), the parent shifts once more (closing its last pipe end) BEFORE it waits, every child started is awaited exactly once, in order (the process IDs are pairwise distinct and each is still unreaped when awaited, so the `expect` cannot fail), none is left unreaped, and `$?` is the status of the last command or, under pipefail, of the rightmost one that failed (0 if none); with job control exactly one child is started for exactly these commands, its awaited result is interpreted once and `$?` is the status it stands for; in both cases errexit is consulted exactly once, at the very end, with that status, and its answer is the result; a failing pipe / start gives an interrupt with status 126 (NOEXEC). In a child, connect_pipe_and_execute_command connects the pipes first and runs the command once, only if that worked.'
-            " Unit builtincall (Verus, yash-semantics/src/command/simple_command/builtin.rs execute_builtin): the redirections of the command are performed first, once, under a RedirGuard; a failed one is reported once and nothing else happens - it interrupts the shell iff the built-in is a SPECIAL one, any other lets the shell go on; the assignments are then made once, with the redirections in effect: for a SPECIAL built-in in the caller's own contexts and not exported (they stay), for any other exported in a VOLATILE context pushed on top, which is gone afterwards; the built-in runs at most once, only after both succeeded and it turned out usable, in a Builtin frame saying whether it is special, with the redirections in effect, the contexts of the assignments and the fields after the command name; `$?` is the exit status of its result, the divert of its result is handed on, and the redirections stay in effect afterwards exactly when the result asks for that (exec); an unusable built-in is reported once, nothing runs, and the contexts, frames and redirections are the caller's again."),
+            " Unit builtincall (Verus, yash-semantics/src/command/simple_command/builtin.rs execute_builtin): the redirections of the command are performed first, once, under a RedirGuard; a failed one is reported once and nothing else happens - it interrupts the shell iff the built-in is a SPECIAL one, any other lets the shell go on; the assignments are then made once, with the redirections in effect: for a SPECIAL built-in in the caller's own contexts and not exported (they stay), for any other exported in a VOLATILE context pushed on top, which is gone afterwards; the built-in runs at most once, only after both succeeded and it turned out usable, in a Builtin frame saying whether it is special, with the redirections in effect, the contexts of the assignments and the fields after the command name; `$?` is the exit status of its result, the divert of its result is handed on, and the redirections stay in effect afterwards exactly when the result asks for that (exec); an unusable built-in is reported once, nothing runs, and the contexts, frames and redirections are the caller's again."
+            " Unit absenttarget (Verus, yash-semantics/src/command/simple_command/absent.rs execute_absent_target - a simple command without a command name): its redirections are never performed in this shell - without redirections no child is started, otherwise exactly one child is started for exactly these redirections and awaited, and its result is interpreted once; in the child (the closure, checked as a nested function with the same body) they are performed once, all, under a guard, a failed one is reported once and the handler's outcome applied, otherwise the child's status is that of the last command substitution in them or the status the command started with; a child that cannot be started interrupts with status 2 and no assignment is made; otherwise the assignments are made in THIS shell, once, all of them, NOT exported, in the caller's own contexts (they stay), a failed one hands its divert on, and `$?` is the status of the last command substitution in the assignments, else what the child reported, else (no redirections) the status handed in."),
         'trusted_base': ['Verus 0.2026.09.13 + Z3', 'Kani 0.68.0 + CBMC 6.11', '/verif/tools/vextract.py, /verif/tools/kunit.py'],
         'assumptions': [
             'struct Env is reduced to the fields the functions read (exit_status, options, stack) in the Verus unit; OptionSet::get is assumed to answer On iff the option is in the set',
@@ -644,6 +651,7 @@ PROPS = {
             'unit subshellcmd: Config::foreground().start_and_wait(..) with its async closure, handle_job_status, apply_errexit / apply_result, print_error, List::execute and run_exit_trap are opaque calls that update a ghost monitor in the reduced Env (the job-name closure goes with the replaced call); await points dropped',
             'unit pipelinerun: PipeSet is a ghost view (number of shifts, has-next flag of the last shift; the real shift / move_to_stdin_stdout are verified in unit pipeset); Config::new().start(..) / Config::foreground().start_and_wait(..) with their async closures are opaque calls (what the child-side closures do after connect_pipe_and_execute_command - apply_result, run_exit_trap - is NOT under contract here); start answers a process ID that is not among the unreaped ones and no job control; wait_for_subshell_to_finish answers Ok(target, status) for an unreaped child of ours (unit waitsub has the real function); handle_job_status, apply_errexit, controls_jobs, OptionSet::get(PipeFail), print_error opaque; `commands.iter().cloned()` is an assumed model of the slice iterator; `for pid in pids` takes the first element off on every round; debug_assert_eq!(job_control, None) is an obligation; preconditions: a fresh monitor; await points dropped; what happens to children already started when a later pipe / start fails is not constrained',
             'unit builtincall: RAII of RedirGuard, the context guard and the frame guard assumed in the contracts of their constructors; perform_assignments, resolve_builtin, the error handler, print_error and the built-in itself are opaque calls recording what was in place; Either::Left(&mut *env) / Either::Right(env.push_context(..)) are checked as two constructors of one guard type and the match that dereferences them as taking the reference the guard holds; the INTERRUPTIBLE run of a built-in (select between the built-in and SIGINT, signals caught meanwhile) is one opaque helper and NOT under contract; the labeled block with a value is checked in its else-nesting form (rule labeled-block-value-to-else); `r#type` renamed; precondition: at least the command name among the fields; await points dropped',
+            "unit absenttarget: the async closure handed to Config::foreground().start_and_wait(..) is checked as a nested function (rule closure-to-nested-fn: parameters = the closure's parameters plus the captured variables redirs_2 and exit_status; its `return` is the closure's) and the start is an opaque call recording what the child was given; RAII of RedirGuard assumed; perform_redirs / perform_assignments / the error handler / apply_result / handle_job_status / print_error opaque, recording what was in place and the status of the last command substitution they saw; slice::first, the iterator over the redirections and the location of the first redirection through helpers; await points dropped",
         ],
     },
 }
